@@ -35,6 +35,7 @@ pub fn gen_system(rng: &mut Rng, class: &str) -> System {
         }
         "malformed" => gen_malformed(rng),
         "pinned" => gen_pinned_degenerate(rng),
+        "large" => gen_large_one_off(rng),
         "collapsed" => {
             let b = gen_planted(rng, 10, 1e-2, &SHAPES);
             let b = if rng.chance(1, 3) { with_priorities(rng, b) } else { b };
@@ -75,7 +76,7 @@ fn main() {
         .get(4)
         .map(|s| s.split(',').map(|x| x.to_owned()).collect())
         .unwrap_or_else(|| {
-            ["planted", "linear", "prio", "contra", "malformed", "caps", "conflict", "disparity", "collapsed", "pinned", "resolve"]
+            ["planted", "linear", "prio", "contra", "malformed", "caps", "conflict", "disparity", "collapsed", "pinned", "resolve", "large"]
                 .iter()
                 .map(|s| s.to_string())
                 .collect()
